@@ -172,6 +172,11 @@ def cases(tier, seed):
                                 # the loads are entered, the nodes are then re-coordinated (non-isometric affine map) and the loads entered again:
                                 # every integral is taken on the current geometry
                                 add(dict(c, restretch=True))
+    # body loads on elements with CURVED interior edges / faces (ZooMesh.curved; the domain is unchanged): resultant of a constant density
+    for et in Z.TYPES_1D + Z.TYPES_2D + Z.TYPES_3D:
+        if Z.proto(et).order >= 2:
+            for sim in (["thermal", "weakforms1"] if Z.dim_of(et) == 1 else ["elastic", "thermal", "weakformsV", "phasefield_d"]):
+                add({"kind": "curved", "sim": sim, "elemType": et, "t": 0.7 if Z.dim_of(et) == 2 else 1.0})
     # beams
     for bsim in ("beam_eb", "beam_timo"):
         for et in Z.TYPES_1D:
@@ -923,7 +928,57 @@ def _run_beam(case):
             "outcome": "ok" if not vio else "violation"}
 
 
+def _run_curved(case):
+    """The load over the whole body (line load in 1D, volume load in 2D / 3D) of a constant density on a mesh whose interior element
+    edges / faces are curved: sum_a F_a[u] == density_u x measure x thickness (sum_a N_a = 1; det J has degree <= the degree of the load
+    rule for every element type, so the statement is exact), and the moment of the nodal forces of the types whose rule also covers
+    x det J.  The boundary is straight and the tiled domain is the unit segment / square / cube."""
+    from types import SimpleNamespace
+
+    et, sim, t = case["elemType"], case["sim"], case["t"]
+    d = Z.dim_of(et)
+    zm = (Z.template_1d(et, 2) if d == 1 else Z.template_2d(et, k=2, diag=1) if d == 2 else Z.template_3d(et, k=2)).curved()
+    mesh = zm.build()
+    simu, unknowns, kw, pt = _make_sim(sim, mesh, d, t)
+    cx = SimpleNamespace(simu=simu, kw=kw, pt_obs=pt, ops=0)
+    load = {1: "lineLoad", 2: "volumeLoad", 3: "volumeLoad"}[d]   # 2D: the body load is the 'volume' load (area x thickness)
+    vals = [2.5, -1.25, 0.75][:len(unknowns)]
+    nodes = np.arange(zm.Nn)
+    tf = t if d == 2 else 1.0
+    v = []
+    key = dict(kind="curved", sim=sim, elemType=et, load=load)
+    obs = []
+    for form in ("const", "function", "array"):
+        values = {"const": list(vals), "function": [(lambda x, y, z, c=c: c + 0 * x) for c in vals],
+                  "array": [np.full(zm.Nn, c) for c in vals]}[form]
+        vec = _apply(cx, load, nodes, values, unknowns)
+        ndof = len(unknowns)
+        F = vec.reshape(zm.Nn, ndof) if vec.size == zm.Nn * ndof else None
+        if F is None:
+            # two-problem simulation: the observed vector belongs to the problem named in pt
+            F = vec.reshape(zm.Nn, -1)[:, :ndof]
+        R = F.sum(axis=0)
+        want = np.array(vals) * zm.exact["measure"] * tf
+        err = float(np.abs(R - want).max() / np.abs(want).max())
+        obs.append(np.round(R, 9))
+        if err > TOL:
+            v.append(viol("resultant", f"{sim}/{et}/{zm.name}: {load} of the constant density {vals} over the whole body entered as '{form}': resultant "
+                                       f"{R.tolist()}, expected density x measure x thickness = {want.tolist()} (rel. err {err:.2e}; {zm.n_moved} displaced nodes)",
+                          form=form, **key))
+        if et in ("SEG3", "SEG4", "SEG5", "TRI6", "QUAD8", "QUAD9") and form == "const":
+            # first moment sum_a x_a F_a[u0] == density x measure x centroid (x det J within the rule: TRI6 2+2 <= 4, tensor cells 2+3 <= 5 per variable)
+            M1 = zm.coords[:, :d].T @ F[:, 0]
+            wantM = vals[0] * zm.exact["measure"] * tf * np.asarray(zm.exact["centroid"])[:d]
+            errM = float(np.abs(M1 - wantM).max() / np.abs(wantM).max())
+            if errM > TOL:
+                v.append(viol("first_moment", f"{sim}/{et}/{zm.name}: sum_a x_a F_a = {M1.tolist()}, expected {wantM.tolist()} (rel. err {errM:.2e})", form=form, **key))
+    return {"violations": v, "fingerprint": fp(sim, et, *obs), "nontrivial": zm.n_moved > 0, "transitions": cx.ops,
+            "outcome": "ok" if not v else "violation:" + "+".join(sorted({x["check"] for x in v}))}
+
+
 def run_case(case):
     if case["kind"] == "beam":
         return _run_beam(case)
+    if case["kind"] == "curved":
+        return _run_curved(case)
     return _run_continuum(case)
